@@ -600,6 +600,13 @@ def gen_typed(tier, seed_):
                 for sc in (1, 3) if kind != 'svg' else (1, 2.5):
                     for b in (0, 2):
                         add('typed', kind, v, {opt: 'red', 'scale': sc, 'border': b})
+        # two-colour pictures in which ONE type crosses over (a dark type in the light colour, a light type in the dark colour)
+        for opt in TYPE_OPTS:
+            crossing = '#fff' if (opt.endswith('_dark') or opt == 'dark_module') else '#000'
+            for v in ((1, 7) if tier == 'quick' else (1, 2, 7, 'M2', 'M4')):
+                add('typed', kind, v, {opt: crossing})
+                if kind != 'ppm' and crossing == '#fff':
+                    add('typed', kind, v, {opt: None, 'light': None})
         # the middle of the version range (per-type colours of versions 8 .. 40: many alignment patterns, version information)
         for _ in range(6 if tier == 'quick' else 40):
             v = r.randint(8, 40)
